@@ -267,6 +267,16 @@ def t11_base128(run, fx, floors):
         probs.append("bit masks %s, expected {0xFE000000, 0x7F, 0x80}" % sorted(hex(x) for x in found["and_masks"]))
     if U["leading_zero"] not in found["eq_consts"]:
         probs.append("no comparison of the first byte with 0x80 (leading zero rule)")
+    # the leading-zero test is about the FIRST byte only: the comparison with 0x80 is dominated by the true side of `i == 0`
+    import guards
+    conds = guards.branch_conditions(b, prov)
+    first = [tb for tb, fb_, op, x, y, sw in conds if op == "Eq" and tb is not None and any(
+        sym.strip(z)[0] == "c" and sym.strip(z)[1] == 0 for z in (x, y)) and not any(
+        sym.strip(z)[0] == "c" and sym.strip(z)[1] == 0x80 for z in (x, y))]
+    lead = [sw for tb, fb_, op, x, y, sw in conds if op in ("Eq", "Ne") and any(sym.strip(z)[0] == "c" and sym.strip(z)[1] == 0x80 for z in (x, y))
+            and not any(sym.strip(z)[0] == "bin" for z in (x, y))]
+    if lead and not all(any(b.dominates(f, sw) for f in first) for sw in lead):
+        probs.append("the comparison of a byte with 0x80 is not restricted to the first byte (i == 0): a canonical encoding whose middle group is zero, e.g. 81 80 00, is rejected")
     if probs:
         run.fail("T11-B128", "U32Base128:constants", "; ".join(probs), site)
     else:
